@@ -197,6 +197,12 @@ fn main() {
             (Ok(Ok(rep)), "missing_exemption") => {
                 let shown: Vec<String> = rep.tax_years.iter().map(|y| format!("{}: exempt {}", y.period.start_year(), y.exempt_amount)).collect();
                 push("C04", "missing_exemption_accepted", format!("tax year {:?} has no configured exemption, yet a report was produced ({})", rr.missing, shown.join(", ")));
+                // C07: every disposal is reported in its tax year -- here the disposals of the unconfigured year are in no year at all
+                let listed: Vec<u16> = rep.tax_years.iter().map(|y| y.period.start_year()).collect();
+                let dropped: Vec<u16> = rr.years.iter().filter(|e| e.count > 0 && !listed.contains(&e.year)).map(|e| e.year).collect();
+                if !dropped.is_empty() {
+                    push("C07", "year_dropped", format!("the all-years report lists the tax years {:?}; the disposals of {:?} are reported in no year", listed, dropped));
+                }
             }
             (Ok(Err(msg)), _) => push("C05", "covered_refused", format!("covered ledger refused: {msg}")),
             (Ok(Ok(rep)), _) => {
